@@ -247,6 +247,18 @@ def run_case(case):
             for sname, f in (("varargs", lambda: a.reshape(*target)), ("list", lambda: a.reshape(list(target)))):
                 res = lib(f, what=what + " [%s]" % sname, sig=sig)
                 check_grouped(res, src, dims, labels, lay, what, sig)
+            # ... and from an array that already carries a grouped axis: the same target must come out, and the grouped operand stays what it was
+            if nd >= 2:
+                pair = (dims[1], dims[0])
+                g = lib(lambda: a.flatten(pair, insert=0), what="flatten(%s, insert=0) dims=%s" % (pair, dims), sig={"op": "flatten"})
+                gdims = tuple(g.dims)
+                if tuple(target) != gdims:
+                    res = lib(lambda: g.reshape(*target), what=what + " [from the grouped array %s]" % (gdims,), sig=sig)
+                    check_grouped(res, src, dims, labels, lay, what + " [from the grouped array %s]" % (gdims,), sig)
+                    check(tuple(g.dims) == gdims, "operand-changed-by-reshape", {"what": what + " [from the grouped array]", "operand_dims_before": list(gdims),
+                                                                                "operand_dims_after": list(g.dims)}, sig)
+                    after = lib(lambda: g.unflatten().transpose(*dims), what="grouped operand after reshape: unflatten().transpose()", sig={"op": "unflatten"})
+                    check_grouped(after, src, dims, labels, [[d] for d in dims], what + " [grouped operand after the call]", {"op": "unflatten"})
             if not needs_transpose:
                 res = lib(lambda: a.reshape(*target, transpose=False), what=what + " transpose=False", sig=sig)
                 check_grouped(res, src, dims, labels, lay, what + " transpose=False", sig)
